@@ -121,6 +121,9 @@ func (sc c10Scenario) mk() stackage.Stack {
 	if sc.Policy {
 		rej := sc.Reject
 		s.SetPushPolicy(func(x ...any) error {
+			// user code running inside the critical section is a scheduling point: the other threads get
+			// to run while this one holds the lock, with all of its lock bookkeeping in place
+			schedUserPoint("push-policy")
 			if v, ok := x[0].(string); rej && ok && strings.HasSuffix(v, "b") {
 				return errCat
 			}
@@ -259,7 +262,14 @@ func c10Check(c *Ctx, sc c10Scenario, bound int, count bool) (execs int, complet
 			c.Violation("not-serializable:"+sig, desc(fmt.Sprintf("outcome %q is produced by no sequential order; sequential outcomes: %q", o, al)), rep, size+len(x.choices))
 		}
 	}
+	ops := 0
+	for _, p := range sc.Progs {
+		ops += len(p)
+	}
+	// scheduling points inside the critical sections for the smaller shapes (all of the quick tier)
+	schedFine = c.Quick() || ops <= 3 || (len(sc.Progs) == 2 && ops <= 4 && sc.InitLen <= 1)
 	n, complete := exploreSchedules(sc.mk, sc.programs(), bound, true, visit, c.TimeUp)
+	schedFine = true
 	if count {
 		c.States.Add(int64(n))
 		c.Traces.Add(int64(n))
